@@ -9,15 +9,18 @@ COQ_TARGETS = ["Corr/Run_C17.vo", "Proofs/BufferedProofs.vo", "Proofs/SweepProof
                "Proofs/KeyspaceProofs.vo", "Proofs/KeyspaceTrie.vo"]
 N = {"quick": 400, "thorough": 2000}
 GO_TIMEOUT = {"quick": 600, "thorough": 3000}
-RULE = ("three kinds of cases. (1) buffered: the real buffered wrapper (batch sizes 1..1024) over a recording wrapped provider "
+RULE = ("three kinds of cases; every scenario that triggered one of the six repaired defects stays in the generators. "
+        "(1) buffered: the real buffered wrapper (batch sizes 1..1024) over a recording wrapped provider "
         "(4 of 5 cases) or over the real SweepingProvider with a recording message sender (1 of 5); the worker is parked inside a "
         "call of the wrapped provider while 0-27 start / force-start / provide-once / stop operations over 1-6 keys (and, in every "
         "tenth case, undecodable multihashes) are enqueued, 1-3 bursts per case, a quarter of them followed by Close + New on the "
-        "same datastore; the calls made are compared with the model and their effect with one-by-one execution. (2) trace: the "
+        "same datastore; the calls made must be those of the model of the repaired wrapper and their effect the one of one-by-one "
+        "execution (provide-once after stop and undecodable items included). (2) trace: the "
         "real SweepingProvider in a synctest bubble: 1-300 keys, swarms of 1-150 peers that grow / shrink / are replaced, "
         "replication factor 1-5 (or 20), router reporting the exact 20 XOR-nearest, reprovide interval 30 min - 22 h, 4-13 "
         "scripted steps (start / force start / provide once / stop / swarm change / network down-up / Close+New on the same "
-        "datastores / address change) spread over several intervals plus 2.3 more intervals of observation, offline delay 0 - "
+        "datastores / address change) spread over several intervals plus 2.3 more intervals of observation, lookup latency 0-2 s, "
+        "three fixed scenarios (single region that splits, rf 1 below the bucket size, work queued at Close), offline delay 0 - "
         "2 intervals, 1-6 workers with every split of dedicated workers that leaves each job type a worker; the recorded trace "
         "is judged by the verified acceptor. (3) sched: reprovideTimeForPrefix, timeBetween and sequences of "
         "schedulePrefixNoLock of the real code on random orders / intervals (1 ns - 24 h) / prefixes (0-30 bits) against their "
@@ -37,8 +40,12 @@ ASSUMPTIONS = [
     "SweepingProvider: it is NOT a proof about the Go worker pool / goroutines",
     "the closest-peers router reports the exact K = 20 nearest peers (amino bucket size): with K <= 4 the early-exit heuristic of "
     "closestPeersToPrefix (maxConsecutiveNoFreshPeers) stops before the prefix is covered and with K = 1 a lookup delimits nothing",
-    "every job type can get a worker (maxWorkers - dedicated workers of the other type >= 1); lookups and messages take no virtual "
-    "time, so workers never queue up behind each other",
+    "every job type can get a worker (maxWorkers - dedicated workers of the other type >= 1); lookups take 0 / 0.1 / 0.5 / 1 / 2 s "
+    "of virtual time (4 of 10 cases: jobs overlap and queue behind the workers, Close finds work in flight), ADD_PROVIDER "
+    "messages take none; the swarm only changes while no lookup is in flight",
+    "not generated: Close + New during an outage (the bootstrap then takes regions reprovided within the interval before the first "
+    "reconnect as fresh and does not catch up a slot missed while down: observed gap 1.73 intervals); a key first given during an "
+    "outage and given again later without force (found 'already provided', first advertised at its slot)",
     "a key counts as given when StartProviding is called while the network is up; during an outage the call returns nil, stores "
     "the key and the key is advertised at its schedule slot only (ProvideOnce: dropped) although the doc comment promises an error",
     "after a restart a key that was fresh at the restart may wait one more interval + delay counted from the restart (the rebuilt "
@@ -48,33 +55,17 @@ ASSUMPTIONS = [
 
 
 def classify(desc, code):
-    """Stable keys of the defects confirmed on the real code (see the report of build-C17)."""
-    if not isinstance(desc, dict):
-        return None
-    kind = desc.get("kind")
-    if kind == "buffered":
-        if code == 4:
-            return "buffered-provideonce-after-stop-cancelled"
-        if code == 5:
-            return "buffered-undecodable-item-drops-batch"
-        return None
-    if kind == "trace" and code >= 21:
-        m = desc.get("misrouted", 0)
-        if m > 0 and m == desc.get("misrouted_explained_by_alloc_depth", -1):
-            return "region-peers-subtrie-allocation-depth-mismatch"
-        if m == 0 and code == 25:
-            return "max-reprovide-delay-not-enforced-on-region-merge"
-        # fixed scenario 1: a missed cycle with every message correctly routed
-        if m == 0 and code == 22 and desc.get("scenario") == "individual-broader-prefix":
-            return "individual-reprovide-reschedules-broader-prefix"
+    # The six defects found while building this check are repaired in /repo (1c8fa8f 31492f2 2d99c97 22c8252
+    # 7d0480f b36ad55) and recorded as "fixed" in known_findings.json: nothing is suppressed any more.
     return None
 
 
 TECHNIQUE = ("Coq proofs on Gallina models (buffered wrapper batching; schedule arithmetic; schedule trie) with differential "
              "correspondence against the Go code, plus a Coq-verified trace acceptor (accepts_sound: accepts -> Level0) evaluated on "
              "traces recorded from the real SweepingProvider under testing/synctest")
-LEVEL_TEXT = ("Proved for all inputs: the buffered wrapper's batched execution leaves the same keystore as one-by-one execution for "
-              "every operation list and every batching (two further clauses refuted with witnesses that replay on the real code); "
+LEVEL_TEXT = ("Proved for all inputs: the (repaired) buffered wrapper's batched execution leaves the same keystore as one-by-one "
+              "execution for every operation list incl. undecodable items and every batching, and queues for advertisement exactly "
+              "what one-by-one execution queues up to keys already kept (the two former protocols are kept with their refutations); "
               "reprovide offsets lie in the cycle, are monotone and distinct per prefix length, split regions never move earlier, "
               "timeBetween is in [1, interval], the max-delay rule never binds, the schedule trie stays prefix-free without panics. "
               "The end-to-end property (every given key advertised with the current addresses to its r XOR-nearest peers, "
@@ -82,6 +73,6 @@ LEVEL_TEXT = ("Proved for all inputs: the buffered wrapper's batched execution l
               "ProvideOnce honoured) is specified as Level0 on traces and checked on recorded traces of the real provider by an "
               "acceptor proved sound in Coq.")
 LEVEL_NOTE = ("PARTIAL: the Go worker pool is not modelled; the tie between the real SweepingProvider and Level0 is a verified monitor "
-              "on generated traces (bounded by the generator), not a refinement proof. The exploration loop closestPeersToPrefix and "
-              "provider/dual are only exercised through those traces. Trusted: Coq kernel, vm_compute, the harness, synctest, "
+              "on generated traces (bounded by the generator), not a refinement proof. The exploration loop closestPeersToPrefix, the "
+              "alarm/cursor logic of the scheduler and provider/dual are only exercised through those traces. Trusted: Coq kernel, vm_compute, the harness, synctest, "
               "go-dsqueue FIFO, the C18 trie lemmas.")
